@@ -1354,8 +1354,9 @@ class TTNS(TTNBase):
             new_node.tensor = np.zeros(new_shape, dtype=dtype)
             indices1 = tuple(indices1)
             indices2 = tuple(indices2)
-            new_node.tensor[indices1] = node1.tensor
-            new_node.tensor[indices2] = node2.tensor
+            # accumulate: on a single-node tree there is no virtual index and both slices cover the whole tensor
+            new_node.tensor[indices1] += node1.tensor
+            new_node.tensor[indices2] += node2.tensor
             if node1 is self.root:
                 np.testing.assert_allclose(node1.qn, node2.qn)
                 new_node.qn = node1.qn.copy()
